@@ -74,12 +74,15 @@ def parse_edit(line, unit, lineno):
     m = re.match(r"loop (\d+) for_to_while (ref|val):\s*(.*)$", t, re.S)
     if m:
         return {"op": "for_to_while", "n": int(m.group(1)), "mode": m.group(2), "spec": m.group(3)}
+    m = re.match(r"chain (\d+) (spec|head|pre_push|after|elem):\s*(.*)$", t, re.S)
+    if m:
+        return {"op": "chain_part", "n": int(m.group(1)), "part": m.group(2), "text": m.group(3)}
     m = re.match(r"drop_nested_fn:\s*(\w+)$", t)
     if m:
         return {"op": "drop_nested_fn", "text": m.group(1)}
-    m = re.match(r"guard_try:\s*(.*)$", t, re.S)
+    m = re.match(r"guard_try( \+returns)?:\s*(.*)$", t, re.S)
     if m:
-        return {"op": "guard_try", "text": m.group(1)}
+        return {"op": "guard_try", "text": m.group(2), "returns": bool(m.group(1))}
     m = re.match(r"match_str (\d+)$", t)
     if m:
         return {"op": "match_str", "n": int(m.group(1))}
@@ -132,7 +135,7 @@ def parse_template(text, unit):
             spec = s[len("//@" + kind):].strip()
             tags = []
             m = re.search(r"\[([^\]]*)\]\s*$", spec)
-            if m and kind == "fn" and re.fullmatch(r"[A-Za-z0-9_,\- ]*", m.group(1)):
+            if m and kind == "fn" and re.fullmatch(r"[A-Za-z0-9_,\-? ]*", m.group(1)):
                 tags = [x.strip() for x in m.group(1).split(",") if x.strip()]
                 spec = spec[:m.start()].strip()
             parts = [p.strip() for p in spec.split("::")]
@@ -174,6 +177,19 @@ def parse_template(text, unit):
             i += 1
             d["header"] = "\n".join(header)
             d["edits"] = [parse_edit(t, unit, n) for t, n in edits]
+            # merge `chain N <part>:` lines into one edit per chain
+            merged, chains = [], {}
+            for e in d["edits"]:
+                if e["op"] == "chain_part":
+                    c = chains.get(e["n"])
+                    if c is None:
+                        c = {"op": "chain", "n": e["n"]}
+                        chains[e["n"]] = c
+                        merged.append(c)
+                    c[e["part"]] = e["text"]
+                else:
+                    merged.append(e)
+            d["edits"] = merged
             segs.append(("fn", d))
             continue
         buf.append(ln)
@@ -250,6 +266,12 @@ def compose(template_text, unit, canary=None):
         r = res[str(k)]
         where = f"{unit}:{d['line']} {d['file']} :: {' :: '.join(d['path'])}"
         if not r.get("ok"):
+            # `?default` on a trait-impl method: when the override no longer exists the trait's default body applies,
+            # so the block is dropped and the obligations that depend on the override (probes, callers) decide.
+            if kind == "fn" and "?default" in d.get("tags", []) and re.search(r"fn \w+: 0 matches", r.get("error", "")):
+                out.log.append(f"{where}: override absent - trait default applies")
+                emit(f"// [{d['path'][-1]} is not overridden in the working tree: the trait's default method applies]\n")
+                continue
             raise ExtractionError(f"{where}: {r.get('error')}")
         if kind == "item":
             out.items.append({"file": d["file"], "path": d["path"], "log": r["log"]})
